@@ -54,6 +54,12 @@ void jls_statistics_compute_f32(struct jls_statistics_s * s, const float * x, ui
         }
     }
     v_mean /= length;
+    // accumulated rounding must not move the mean outside [min, max]
+    if (v_mean < v_min) {
+        v_mean = v_min;
+    } else if (v_mean > v_max) {
+        v_mean = v_max;
+    }
     double m;
     for (uint64_t i = 0; i < length; ++i) {
         m = x[i] - v_mean;
@@ -87,6 +93,12 @@ void jls_statistics_compute_f64(struct jls_statistics_s * s, const double * x, u
         }
     }
     v_mean /= length;
+    // accumulated rounding must not move the mean outside [min, max]
+    if (v_mean < v_min) {
+        v_mean = v_min;
+    } else if (v_mean > v_max) {
+        v_mean = v_max;
+    }
     double m;
     for (uint64_t i = 0; i < length; ++i) {
         m = x[i] - v_mean;
